@@ -325,7 +325,14 @@ where
 
 pub trait GLWESub
 where
-    Self: ModuleN + VecZnxSub + VecZnxCopy + VecZnxNegate + VecZnxZero + VecZnxSubAssign + VecZnxSubNegateAssign,
+    Self: ModuleN
+        + VecZnxSub
+        + VecZnxCopy
+        + VecZnxNegate
+        + VecZnxNegateAssign
+        + VecZnxZero
+        + VecZnxSubAssign
+        + VecZnxSubNegateAssign,
 {
     fn glwe_sub<R, A, B>(&self, res: &mut R, a: &A, b: &B)
     where
@@ -408,6 +415,10 @@ where
 
         for i in 0..(a.rank() + 1).into() {
             self.vec_znx_sub_negate_assign(res.data_mut(), i, a.data(), i);
+        }
+        // res = a - res: columns that `a` does not have (rank-0 operand) are still negated.
+        for i in (a.rank() + 1).into()..(res.rank() + 1).into() {
+            self.vec_znx_negate_assign(res.data_mut(), i);
         }
     }
 }
@@ -652,8 +663,14 @@ where
         assert!(res.rank() >= a.rank());
 
         let base2k: usize = res.base2k().into();
-        for i in 0..res.rank().as_usize() + 1 {
+        for i in 0..a.rank().as_usize() + 1 {
             self.vec_znx_lsh(base2k, k, res.data_mut(), i, a.data(), i, scratch);
+        }
+        // Columns that `a` does not have (operand of smaller rank) are zero.
+        for i in a.rank().as_usize() + 1..res.rank().as_usize() + 1 {
+            for j in 0..res.size() {
+                poulpy_hal::layouts::ZnxZero::zero_at(res.data_mut(), i, j);
+            }
         }
     }
 
@@ -678,7 +695,7 @@ where
         assert!(res.rank() >= a.rank());
 
         let base2k: usize = res.base2k().into();
-        for i in 0..res.rank().as_usize() + 1 {
+        for i in 0..a.rank().as_usize() + 1 {
             self.vec_znx_lsh_add_into(base2k, k, res.data_mut(), i, a.data(), i, scratch);
         }
     }
@@ -704,7 +721,7 @@ where
         assert!(res.rank() >= a.rank());
 
         let base2k: usize = res.base2k().into();
-        for i in 0..res.rank().as_usize() + 1 {
+        for i in 0..a.rank().as_usize() + 1 {
             self.vec_znx_lsh_sub(base2k, k, res.data_mut(), i, a.data(), i, scratch);
         }
     }
